@@ -964,6 +964,21 @@ def run(R):
                         else:
                             R.nontriv(('nonkripke', Mn, nm, Ln, arg_kind, str(F)))
 
+    # ---- 5b. the Boolean constant is built from a Python bool and from nothing else: True == 1 == 1.0 and they hash alike, so a
+    #          membership / equality test instead of a type test would let numbers in (an object that is not a documented formula)
+    for Ln in LANGS:
+        L = lang_module(Ln)
+        for X in (1, 0, 1.0, 0.0, 1 + 0j, 2, -1, None, 'true', 'True', '', [], (True,), [True]):
+            R.evaluations += 1
+            r = call(lambda: L.Bool(X))
+            if r != ('err', 'TypeError'):
+                J.bad('%s.Bool(%r) did not raise TypeError' % (Ln, X), {'kind': 'bool_ctor', 'lang': Ln, 'value': repr(X),
+                                                                        'impl': [r[0], str(r[1])[:80]], 'model': ['err', 'TypeError']})
+        for X in (True, False):
+            r = call(lambda: (type(L.Bool(X)._value), L.Bool(X)._value))
+            if r != ('ok', (bool, X)):
+                J.bad('%s.Bool(%r) does not hold the Python bool' % (Ln, X), {'kind': 'bool_ctor', 'lang': Ln, 'value': repr(X), 'impl': [r[0], str(r[1])[:80]]})
+
     # ---- 6. informational: operands that are not formulas at all (outside the property's quantifier) ---------
     info = collections.Counter()
     for Ln in LANGS:
@@ -1215,6 +1230,11 @@ def replay(R, data):
         v = model_eval([e], {})[0][e]
         obs = impl_guard(d['checker'], K, impl_expr(e), F=F)
         m = model_mc(model_batch([guard_cmd(d['checker'], v[1], ks, v[2])])[0])
+    elif kind == 'bool_ctor':
+        X = eval(d['value'], {})
+        obs = call(lambda: lang_module(d['lang']).Bool(X))
+        obs = (obs[0], str(obs[1]))
+        m = ('err', 'TypeError') if not isinstance(X, bool) else ('ok', str(X).lower())
     elif kind == 'guard':
         if d.get('structure'):
             from pyModelChecking.kripke import Kripke as _Kripke
